@@ -1,71 +1,65 @@
 """gen_wasi — regenerate lean/W2c2Verif/Gen/Wasi.lean from /repo/wasi/wasi.c and wasi.h.
 
-Everything below is read from the source text (comments stripped), nothing is hard-coded:
-  * the C parameter types of every WASI_IMPORT / WASI_PREVIEW1_IMPORT / WASI_UNSTABLE_IMPORT
-    (e.g. whether the fd_pread offset is declared U32 or U64);
-  * the two whence tables (convertPreview1Whence / convertUnstableWhence);
-  * path_open: the rights masks behind isRead/isWrite, the access-mode ternary, the
-    oflags / fdflags -> O_* mapping, the creation mode;
-  * the errno translation switch of wasiErrno (+ its default);
-  * the filestat layouts of both ABIs (offset, store width, C type of the stored variable,
-    size of the zeroed area), the prestat and fdstat stores, the iovec stride and field offsets;
-  * how fd_write/fd_read gather their iovec array;
-  * structural facts of the descriptor code that the C13 model branches on:
-    does wasiFileDescriptorClose clear `path` in the table after freeing it; do
-    fd_readdir / fd_fdstat_get / fd_filestat_get test `path == NULL` before strcpy; does
-    fd_seek convert whence before the descriptor lookup.
-A construct outside the expected shape raises ExtractFail (the tie is then reported broken).
+SEMANTIC extraction: wasi.c is preprocessed by the real preprocessor, parsed and EXECUTED by the small C
+interpreter of wasi_cinterp.py on mock hosts (a descriptor table, guest memory, recording mocks for every libc /
+w2c2 call).  Each fact below is read off the observed behaviour of a probe — the host calls made, their arguments,
+the stores into guest memory, the result — never off the shape of the text:
+
+  * C parameter types of every import (parsed declarations of the preprocessed functions);
+  * whence tables: fd_seek(live fd, whence v) for v = 0…8 and large values -> third argument of `lseek`, or EINVAL;
+  * where an invalid whence is rejected relative to the descriptor lookup (dead fd + invalid whence);
+  * path_open: for every single oflags / fdflags bit the O_* bits added to `open`'s flag word, for every rights bit
+    the access mode (read / write masks, access-mode table — then cross-checked on pseudo-random rights words),
+    the creation mode, the O_DIRECTORY emulation by fstat, what is registered in the table;
+  * errno translation: the result of a failing call for every host errno the executed code compares `errno` with
+    (switch cases or ==/!= comparisons alike) and for an errno it does not mention (default);
+  * filestat layouts of both ABIs: the memset and the stores fd_filestat_get performs for a stat result with
+    distinctive field values (offset, store width, truncation width of each field);
+  * iovec marshalling: which guest addresses fd_write / fd_read load for a 2-element vector and what they hand to
+    writev / readv; that nothing is stored when the transfer fails;
+  * structural facts of the descriptor code: does fd_close leave a NULL path in the table, are empty slots
+    rejected, what happens with a NULL path in fd_readdir / fd_fdstat_get / fd_filestat_get (errno or NULL
+    dereference), fd_sync / fd_datasync on a descriptor without native fd, embedded NUL in a guest path, does
+    fd_readdir close the entry's native descriptor, does every path_* import validate its directory descriptor
+    (never issued / path-less descriptor × relative / absolute guest path -> EBADF without any host call).
+
+Local names, switch vs if/else chains, copy-propagated temporaries, `!x` / `x == 0` / `x == NULL`, swapped if/else
+branches, `i++` / `i += 1`, for vs while, the spelling of literals and named constants are invisible to the probes.
+Constants of wasi.h that the model uses by value (WASI_ERRNO_*, WASI_RIGHTS_*, …) are evaluated from the #defines.
+Whatever the interpreter cannot execute (C outside its subset, a host call without mock, a branch on a value the
+probe does not determine, an observation outside the expected repertoire) raises ExtractFail: the tie is reported
+broken, nothing is guessed.
 """
+import errno as pyerrno
 import os
+import random
 import re
+
 from cfront import ExtractFail
+import wasi_cinterp as ci
+from wasi_cinterp import Cell, Ptr, Interp
 
 GEN_NAME = "Wasi"
 
-CT_BITS = {"U8": 8, "I8": 8, "U16": 16, "I16": 16, "U32": 32, "I32": 32, "U64": 64, "I64": 64, "int": 32,
-           "WasiFileType": 8, "WasiRights": 64, "size_t": 64, "off_t": 64}
 ERRNOS = ["EPERM", "ENOENT", "ESRCH", "EINTR", "EIO", "ENXIO", "E2BIG", "ENOEXEC", "EBADF", "ECHILD", "EAGAIN",
           "ENOMEM", "EACCES", "EFAULT", "EBUSY", "EEXIST", "EXDEV", "ENODEV", "ENOTDIR", "EISDIR", "EINVAL", "ENFILE",
           "EMFILE", "ENOTTY", "ETXTBSY", "EFBIG", "ENOSPC", "ESPIPE", "EROFS", "EMLINK", "EPIPE", "EDOM", "ERANGE",
           "ENAMETOOLONG", "ENOTEMPTY", "ELOOP", "EOVERFLOW", "ENOSYS"]
-OFLAGS = {"O_CREAT": "creat", "O_DIRECTORY": "directory", "O_EXCL": "excl", "O_TRUNC": "trunc", "O_APPEND": "append",
-          "O_DSYNC": "dsync", "O_NONBLOCK": "nonblock", "O_SYNC": "sync"}
-ACC = {"O_RDONLY": "rdonly", "O_WRONLY": "wronly", "O_RDWR": "rdwr"}
-WHENCE = {"SEEK_SET": "set", "SEEK_CUR": "cur", "SEEK_END": "end"}
+OFLAG_BY_VALUE = {os.O_CREAT: "creat", os.O_DIRECTORY: "directory", os.O_EXCL: "excl", os.O_TRUNC: "trunc",
+                  os.O_APPEND: "append", os.O_DSYNC: "dsync", os.O_NONBLOCK: "nonblock", os.O_SYNC: "sync"}
+ACC_BY_VALUE = {os.O_RDONLY: "rdonly", os.O_WRONLY: "wronly", os.O_RDWR: "rdwr"}
+WHENCE_BY_VALUE = {os.SEEK_SET: "set", os.SEEK_CUR: "cur", os.SEEK_END: "end"}
 STORE_BYTES = {"i32_store8": 1, "i32_store16": 2, "i32_store": 4, "i64_store": 8}
+HOST_PATH_CALLS = {"open", "stat", "lstat", "fstat", "rename", "unlink", "rmdir", "mkdir", "symlink", "readlink", "opendir"}
+ABI = {"p1": "wasi_snapshot_preview1__", "un": "wasi_unstable__"}
+S_IFREG, S_IFDIR = 0o100000, 0o040000
 
 
 def strip_comments(text):
     return re.sub(r"/\*.*?\*/", lambda m: re.sub(r"[^\n]", " ", m.group(0)), text, flags=re.S)
 
 
-def match_close(text, i, op="(", cl=")"):
-    d = 0
-    while i < len(text):
-        if text[i] == op:
-            d += 1
-        elif text[i] == cl:
-            d -= 1
-            if d == 0:
-                return i
-        i += 1
-    raise ExtractFail("wasi.c", "unbalanced " + op)
-
-
-def function_body(text, name):
-    for m in re.finditer(r"\b%s\s*\(" % re.escape(name), text):
-        i = match_close(text, m.end() - 1)
-        j = i + 1
-        while j < len(text) and text[j] in " \t\r\n":
-            j += 1
-        if j < len(text) and text[j] == "{":
-            k = match_close(text, j, "{", "}")
-            return text[j + 1:k]
-    raise ExtractFail("wasi.c", f"function {name} not found")
-
-
 def macros_of(header_text):
-    """#define NAME value (with continuation lines) -> dict"""
     text = header_text.replace("\\\n", " ")
     ms = {}
     for m in re.finditer(r"^[ \t]*#[ \t]*define[ \t]+(\w+)[ \t]+(.+)$", text, flags=re.M):
@@ -76,6 +70,7 @@ def macros_of(header_text):
 def eval_const(expr, macros, where, depth=0):
     if depth > 40:
         raise ExtractFail(where, "macro recursion")
+
     def sub(m):
         n = m.group(0)
         if n in macros:
@@ -88,269 +83,527 @@ def eval_const(expr, macros, where, depth=0):
     return int(eval(" ".join(e.split()), {"__builtins__": {}}))
 
 
-# ----------------------------------------------------------------------------- imports
+class Crash(Exception):
+    def __init__(self, kind):
+        self.kind = kind
 
-def imports(text):
-    """-> list of (abi, name, [(ctype, pname)])"""
+
+class World(object):
+    """a mock host around one interpreter instance"""
+
+    def __init__(self, unit):
+        self.guest = Cell("guest")
+        self.memory = Cell("memory")
+        self.memory.field("data").v = Ptr(self.guest, 0)
+        self.memory.field("size").v = 65536
+        self.errno = Cell("errno"); self.errno.v = 0
+        self.loads, self.stores, self.memsets, self.freed = [], [], [], []
+        self.ret = {"open": 9, "lseek": 7, "writev": 5, "readv": 5, "close": 0, "closedir": 0, "fsync": 0, "fdatasync": 0,
+                    "rename": 0, "unlink": 0, "rmdir": 0, "mkdir": 0, "symlink": 0, "readlink": 0, "fcntl": 0, "isatty": 0}
+        self.stat = {"st_dev": 0x0D0E0F1011121314, "st_ino": 0x2122232425262728, "st_mode": S_IFREG, "st_nlink": 0x3132333435363738,
+                     "st_size": 0x4142434445464748, "st_atim": (1111, 222), "st_mtim": (3333, 444), "st_ctim": (5555, 666)}
+        self.load_value = lambda addr: (addr * 13 + 5) & 0xFFFF
+        self.iov_seen = None
+        m = {}
+        m["wasiMemory"] = lambda it, inst: Ptr(self.memory)
+        m["__errno_location"] = lambda it: Ptr(self.errno)
+        for fn in ("i32_load", "i64_load", "i32_load8_u", "i32_load16_u"):
+            m[fn] = self._load
+        for fn in STORE_BYTES:
+            m[fn] = (lambda f: lambda it, mem, addr, v: self.stores.append((f, addr, v)))(fn)
+        m["memset"] = self._memset
+        m["memcpy"] = self._memcpy
+        m["memmove"] = self._memcpy
+        m["memchr"] = self._memchr
+        m["strlen"] = lambda it, p: len(self._cstr(it, p, "strlen"))
+        m["strcpy"] = self._strcpy
+        m["strcat"] = self._strcat
+        m["strndup"] = self._strndup
+        m["malloc"] = lambda it, n: Ptr(Cell("heap"), 0)
+        m["calloc"] = lambda it, n, sz: Ptr(Cell("heap"), 0)
+        m["realloc"] = lambda it, p, n: p
+        m["free"] = self._free
+        m["open"] = lambda it, p, fl, mode=0: self.ret["open"]
+        m["fstat"] = self._fstat
+        m["stat"] = lambda it, p, st: self._fstat(it, -1, st)
+        m["lstat"] = lambda it, p, st: self._fstat(it, -1, st)
+        m["opendir"] = lambda it, p: Ptr(Cell("DIR"))
+        m["readdir"] = lambda it, d: 0
+        m["seekdir"] = lambda it, d, pos: None
+        m["rewinddir"] = lambda it, d: None
+        m["telldir"] = lambda it, d: 0
+        m["writev"] = self._iov("writev")
+        m["readv"] = self._iov("readv")
+        m["lseek"] = lambda it, fd, off, wh: self.ret["lseek"]
+        for fn in ("close", "closedir", "fsync", "fdatasync", "isatty"):
+            m[fn] = (lambda f: lambda it, *a: self.ret[f])(fn)
+        m["fcntl"] = lambda it, *a: self.ret["fcntl"]
+        for fn in ("rename", "unlink", "rmdir", "mkdir", "symlink", "readlink"):
+            m[fn] = (lambda f: lambda it, *a: self.ret[f])(fn)
+        self.it = Interp(unit, m)
+        self.table = None
+
+    # ---- mocks
+    def _cstr(self, it, p, what):
+        if p == 0:
+            raise Crash("nullDeref")
+        if isinstance(p, Ptr) and id(p.cell) in [id(c) for c in self.freed]:
+            raise Crash("useAfterFree")
+        return ci.read_cstr(it, p)
+
+    def _load(self, it, mem, addr):
+        self.loads.append(addr)
+        return self.load_value(addr)
+
+    def _memset(self, it, p, val, n):
+        self.memsets.append((p, val, n))
+        if isinstance(p, Ptr) and p.idx is not None and isinstance(n, int) and n <= 4096:
+            for k in range(n):
+                p.cell.elem(p.idx + k).v = val
+        return p
+
+    def _memcpy(self, it, dst, src, n):
+        if dst == 0 or src == 0:
+            raise Crash("nullDeref")
+        for k in range(n):
+            d, s = it.padd(dst, k).target(), it.padd(src, k).target()
+            d.v = s.v if s.v is not None else ci.Unknown("copied")
+        return dst
+
+    def _memchr(self, it, p, c, n):
+        for k in range(n):
+            v = it.padd(p, k).target().v
+            if v == c:
+                return it.padd(p, k)
+        return 0
+
+    def _strcpy(self, it, dst, src):
+        s = self._cstr(it, src, "strcpy")
+        for k, b in enumerate(s + [0]):
+            it.padd(dst, k).target().v = b
+        return dst
+
+    def _strcat(self, it, dst, src):
+        d = self._cstr(it, dst, "strcat")
+        s = self._cstr(it, src, "strcat")
+        for k, b in enumerate(s + [0]):
+            it.padd(dst, len(d) + k).target().v = b
+        return dst
+
+    def _strndup(self, it, p, n):
+        s = self._cstr(it, p, "strndup")[:n]
+        return Ptr(ci.bytes_cell(s + [0], "strndup"), 0)
+
+    def _free(self, it, p):
+        if p == 0:
+            return None
+        if any(c is p.cell for c in self.freed):
+            raise Crash("doubleFree")
+        self.freed.append(p.cell)
+        return None
+
+    def _fstat(self, it, fd, stp):
+        st = stp.target()
+        for k, v in self.stat.items():
+            if isinstance(v, tuple):
+                st.field(k).field("tv_sec").v = v[0]
+                st.field(k).field("tv_nsec").v = v[1]
+            else:
+                st.field(k).v = v
+        return 0
+
+    def _iov(self, name):
+        def f(it, fd, iov, cnt):
+            segs = []
+            for k in range(cnt):
+                e = it.padd(iov, k).target()
+                segs.append((e.field("iov_base").v, e.field("iov_len").v))
+            self.iov_seen = (name, fd, segs, cnt)
+            return self.ret[name]
+        return f
+
+    # ---- set-up
+    def set_table(self, entries):
+        arr = Cell("fdtable")
+        for i, (fd, d, path) in enumerate(entries):
+            e = arr.elem(i)
+            e.field("fd").v = fd
+            e.field("dir").v = d
+            e.field("path").v = Ptr(ci.bytes_cell([ord(c) for c in path] + [0], f"path{i}"), 0) if isinstance(path, str) else path
+        w = self.it.globals["wasi"]
+        w.field("fds").field("fds").v = Ptr(arr, 0)
+        w.field("fds").field("length").v = len(entries)
+        w.field("fds").field("capacity").v = len(entries)
+        self.table = arr
+
+    def entry(self, i):
+        e = self.table.elem(i)
+        return e.field("fd").v, e.field("dir").v, e.field("path").v
+
+    def table_len(self):
+        return self.it.globals["wasi"].field("fds").field("length").v
+
+    def put(self, addr, data):
+        for k, b in enumerate(data):
+            self.guest.elem(addr + k).v = b
+
+    def call(self, name, *args):
+        """-> ('ret', value) | ('crash', kind)"""
+        self.it.calls = []
+        try:
+            return ("ret", self.it.invoke(name, list(args)))
+        except Crash as c:
+            return ("crash", c.kind)
+
+    def called(self, *names):
+        return [c for c in self.it.calls if c[0] in names]
+
+
+STD_TABLE = [(0, 0, 0), (1, 0, 0), (2, 0, 0), (-1, 0, "sb"), (5, 0, "sb/f"), (-1, 0, 0)]
+#             stdio ×3 (no path)            pre-open      opened file     empty (closed) slot
+
+
+def world(unit, table=STD_TABLE):
+    w = World(unit)
+    w.set_table(table)
+    w.put(100, [ord("f")])             # relative guest path "f" at 100
+    w.put(110, [ord("/"), ord("x")])   # absolute guest path "/x" at 110
+    return w
+
+
+def expect(cond, where, why):
+    if not cond:
+        raise ExtractFail(where, why)
+
+
+# ----------------------------------------------------------------------------- facts
+
+CT_BITS = {k: v[0] for k, v in ci.INT_TYPES.items()}
+
+
+def imports(unit):
     out = []
-    for m in re.finditer(r"\bWASI_(UNSTABLE_|PREVIEW1_|)IMPORT\s*\(", text):
-        # skip the #define lines themselves
-        ls = text.rfind("\n", 0, m.start()) + 1
-        if text[ls:m.start()].strip().startswith("#"):
-            continue
-        i = m.end() - 1
-        j = match_close(text, i)
-        inner = text[i + 1:j]
-        if re.match(r"\s*returnType\s*,", inner):
-            continue        # the macro definitions themselves
-        mm = re.match(r"\s*(\w+)\s*,\s*(\w+)\s*,\s*\(", inner)
-        if not mm:
-            raise ExtractFail("wasi.c", "unexpected WASI_IMPORT shape")
-        p0 = mm.end() - 1
-        p1 = match_close(inner, p0)
-        params = []
-        for p in inner[p0 + 1:p1].split(","):
-            p = p.strip()
-            if not p:
-                continue
-            pm = re.match(r"(void\s*\*|\w+)\s+(?:UNUSED\s*\(\s*(\w+)\s*\)|(\w+))$", p)
-            if not pm:
-                raise ExtractFail("wasi.c", f"unexpected parameter `{p}` in import {mm.group(2)}")
-            params.append((re.sub(r"\s+", "", pm.group(1)), pm.group(2) or pm.group(3)))
-        abis = {"UNSTABLE_": ["un"], "PREVIEW1_": ["p1"], "": ["un", "p1"]}[m.group(1)]
-        for a in abis:
-            out.append((a, mm.group(2), params))
+    for name in unit.order:
+        for abi, pre in (("un", ABI["un"]), ("p1", ABI["p1"])):
+            if name.startswith(pre):
+                ps = []
+                for pn, ty in unit.funcs[name].params:
+                    if ty.ptr:
+                        continue
+                    if ty.base not in CT_BITS:
+                        raise ExtractFail("wasi.c", f"unknown C type {ty.base} of {name}.{pn}")
+                    ps.append((pn, CT_BITS[ty.base]))
+                out.append((abi, name[len(pre):], ps))
     return out
 
 
-def param_bits(imps, abi, name, pname_re):
+def param_bits(imps, abi, name, index):
     for a, n, ps in imps:
         if a == abi and n == name:
-            for ct, pn in ps:
-                if re.fullmatch(pname_re, pn):
-                    if ct not in CT_BITS:
-                        raise ExtractFail("wasi.c", f"unknown C type {ct} of {name}.{pn}")
-                    return CT_BITS[ct]
-            raise ExtractFail("wasi.c", f"import {name} has no parameter matching {pname_re}")
+            expect(index < len(ps), "wasi.c", f"import {name} has no parameter #{index}")
+            return ps[index][1]
     raise ExtractFail("wasi.c", f"import {abi}:{name} not found")
 
 
-# ----------------------------------------------------------------------------- tables
-
-def whence_table(text, fname):
-    body = function_body(text, fname)
-    rows = re.findall(r"case\s+(\d+)\s*:\s*return\s+(\w+)\s*;", body)
-    dm = re.search(r"default\s*:\s*return\s+(-?\d+)\s*;", body)
-    if not rows or not dm or dm.group(1) != "-1":
-        raise ExtractFail("wasi.c", f"{fname}: unexpected switch shape")
-    for _, w in rows:
-        if w not in WHENCE:
-            raise ExtractFail("wasi.c", f"{fname}: unknown whence {w}")
-    return [(int(v), WHENCE[w]) for v, w in rows]
-
-
-def errno_table(text, macros):
-    body = function_body(text, "wasiErrno")
-    # drop nested platform-specific switch (EMACOSERR) and preprocessor lines
-    body = re.sub(r"#if defined\(__MSL__\).*?#endif", "", body, flags=re.S)
-    rows = re.findall(r"case\s+(\w+)\s*:\s*return\s+(\w+)\s*;", body)
-    dm = re.search(r"default\s*:(.*?)return\s+(\w+)\s*;", body, flags=re.S)
-    if not rows or not dm:
-        raise ExtractFail("wasi.c", "wasiErrno: unexpected switch shape")
-    tab = []
-    for e, w in rows:
-        if e not in ERRNOS:
-            raise ExtractFail("wasi.c", f"wasiErrno: errno {e} unknown to Spec.Posix.Errno")
-        tab.append((e, eval_const(w, macros, "wasi.h")))
-    return tab, eval_const(dm.group(2), macros, "wasi.h")
-
-
-def path_open_tables(text, macros):
-    body = function_body(text, "wasiPathOpen")
-    def mask(var):
-        m = re.search(r"bool\s+%s\s*=\s*fsRightsBase\s*&\s*\(([^;]*)\)\s*;" % var, body)
-        if not m:
-            raise ExtractFail("wasi.c", f"wasiPathOpen: definition of {var} not found")
-        return eval_const(m.group(1), macros, "wasi.h")
-    rd, wr = mask("isRead"), mask("isWrite")
-    m = re.search(r"nativeFlags\s*=\s*isWrite\s*\?\s*isRead\s*\?\s*(\w+)\s*:\s*(\w+)\s*:\s*(\w+)\s*;", body)
-    if not m or any(g not in ACC for g in m.groups()):
-        raise ExtractFail("wasi.c", "wasiPathOpen: access-mode expression not of the expected shape")
-    acc = {"wr": ACC[m.group(1)], "w": ACC[m.group(2)], "r": ACC[m.group(3)]}
-    omap, fmap = [], []
-    for var, wm, of in re.findall(r"if\s*\(\s*(oflags|fdFlags)\s*&\s*(\w+)\s*\)\s*\{\s*nativeFlags\s*\|=\s*(\w+)\s*;\s*\}", body):
-        if of not in OFLAGS:
-            raise ExtractFail("wasi.c", f"wasiPathOpen: unknown native flag {of}")
-        (omap if var == "oflags" else fmap).append((eval_const(wm, macros, "wasi.h"), OFLAGS[of]))
-    mm = re.search(r"static\s+const\s+int\s+mode\s*=\s*(0[0-7]*)\s*;", body)
-    if not mm or not omap:
-        raise ExtractFail("wasi.c", "wasiPathOpen: mode / oflags mapping not found")
-    # O_DIRECTORY emulation: `oflags & WASI_OFLAGS_DIRECTORY` followed by fstat + NOTDIR
-    emu = re.search(r"oflags\s*&\s*WASI_OFLAGS_DIRECTORY\s*\)\s*\{[^}]*fstat", body, flags=re.S) is not None
-    # what is registered in the table
-    am = re.search(r"wasiFileDescriptorAdd\s*\(\s*nativeFD\s*,\s*(\w+)\s*,", body)
-    if not am:
-        raise ExtractFail("wasi.c", "wasiPathOpen: wasiFileDescriptorAdd call not found")
-    return rd, wr, acc, omap, fmap, int(mm.group(1), 8), emu, am.group(1)
-
-
-def stores(body, ptr):
-    """iNN_store(memory, ptr [+ K], expr) calls -> [(fn, K, expr)]"""
-    out = []
-    for m in re.finditer(r"\b(i32_store8|i32_store16|i32_store|i64_store)\s*\(\s*memory\s*,\s*%s\s*(?:\+\s*(\d+)\s*)?,\s*([^;]*?)\)\s*;" % re.escape(ptr), body, flags=re.S):
-        out.append((m.group(1), int(m.group(2) or 0), m.group(3).strip()))
-    return out
-
-
-def filestat_layout(text, fname, sizename):
-    body = function_body(text, fname)
-    sm = re.search(r"static\s+const\s+size_t\s+%s\s*=\s*(\d+)\s*;" % sizename, text)
-    mm = re.search(r"memset\s*\(\s*memory->data\s*\+\s*statPointer\s*,\s*0\s*,\s*(\w+)\s*\)", body)
-    if not sm or not mm or mm.group(1) != sizename:
-        raise ExtractFail("wasi.c", f"{fname}: memset / size constant not of the expected shape")
+def whence_table(unit, abi):
     rows = []
-    for fn, off, var in stores(body, "statPointer"):
-        dm = re.search(r"\b(\w+)\s+%s\s*=\s*([^;]+);" % re.escape(var), body)
-        if not dm or dm.group(1) not in CT_BITS:
-            raise ExtractFail("wasi.c", f"{fname}: declaration of stored variable {var} not found")
-        rows.append((var, off, STORE_BYTES[fn], CT_BITS[dm.group(1)]))
-    if len(rows) < 8:
-        raise ExtractFail("wasi.c", f"{fname}: expected 8 stores, found {len(rows)}")
-    return int(sm.group(1)), rows
+    for v in list(range(0, 9)) + [255, 256, 65535, 65536, 1 << 31, (1 << 32) - 1]:
+        w = world(unit)
+        r = w.call(ABI[abi] + "fd_seek", 0, 4, 0, v, 64)
+        ls = w.called("lseek")
+        if ls:
+            expect(r == ("ret", 0) and len(ls) == 1 and ls[0][1][0] == 5 and ls[0][1][2] in WHENCE_BY_VALUE, "wasi.c",
+                   f"{abi} fd_seek(whence {v}): unexpected lseek call {ls} / result {r}")
+            rows.append((v, WHENCE_BY_VALUE[ls[0][1][2]]))
+        else:
+            expect(r[0] == "ret" and r[1] != 0, "wasi.c", f"{abi} fd_seek(whence {v}) succeeds without lseek")
+    expect(rows and all(v < 9 for v, _ in rows), "wasi.c", f"{abi} fd_seek: whence table outside 0…8: {rows}")
+    return rows
 
 
-def iovec_facts(text):
-    facts = {}
-    for fname, szname, ptr in (("wasiFDWrite", "ciovecSize", "ciovecPointer"), ("wasiFDRead", "iovecSize", "iovecPointer")):
-        body = function_body(text, fname)
-        sm = re.search(r"static\s+const\s+size_t\s+%s\s*=\s*(\d+)\s*;" % szname, text)
-        if not sm:
-            raise ExtractFail("wasi.c", f"{szname} not found")
-        pm = re.search(r"U64\s+%s\s*=\s*(\w+)\s*\+\s*(\w+)\s*\*\s*%s\s*;" % (ptr, szname), body)
-        bm = re.search(r"bufferPointer\s*=\s*i32_load\s*\(\s*memory\s*,\s*%s\s*\)" % ptr, body)
-        lm = re.search(r"length\s*=\s*i32_load\s*\(\s*memory\s*,\s*%s\s*\+\s*(\d+)\s*\)" % ptr, body)
-        if not pm or not bm or not lm:
-            raise ExtractFail("wasi.c", f"{fname}: iovec marshalling not of the expected shape")
-        facts[fname] = (int(sm.group(1)), 0, int(lm.group(1)))
-        # store of the byte count happens after the `total < 0` test
-        tpos = body.find("total < 0")
-        spos = body.find("i32_store(memory, resultPointer, total)")
-        if tpos < 0 or spos < 0 or spos < tpos:
-            raise ExtractFail("wasi.c", f"{fname}: result store / error test order unexpected")
-    return facts
+def seek_whence_first(unit, inval, badf):
+    res = set()
+    for abi in ABI:
+        w = world(unit)
+        r = w.call(ABI[abi] + "fd_seek", 0, 77, 0, 99, 64)
+        expect(r[0] == "ret" and r[1] in (inval, badf) and not w.called("lseek"), "wasi.c", f"fd_seek(dead fd, bad whence) = {r}")
+        res.add(r[1] == inval)
+    expect(len(res) == 1, "wasi.c", "the two fd_seek imports treat an invalid whence differently")
+    return res.pop()
 
 
-def structure_flags(text):
-    close = function_body(text, "wasiFileDescriptorClose")
-    fpos = close.find("free(")
-    clears = False
-    if fpos >= 0:
-        clears = re.search(r"(\.|->)\s*path\s*=\s*NULL\s*;", close[fpos:]) is not None
-    # wasiFileDescriptorGet rejects a slot with no native fd, no DIR and no path
-    get = function_body(text, "wasiFileDescriptorGet")
-    get_rejects = False
-    for m in re.finditer(r"MUST\s*\(", get):
-        j = match_close(get, m.end() - 1)
-        cond = re.sub(r"\s+", "", get[m.end():j])
-        if re.fullmatch(r"wasi\.fds\.fds\[wasiFD\]\.fd>=0\|\|wasi\.fds\.fds\[wasiFD\]\.dir!=NULL\|\|wasi\.fds\.fds\[wasiFD\]\.path!=NULL", cond):
-            # must come before the copy to *result
-            if get.find("*result") > m.start():
-                get_rejects = True
-        elif cond != "wasiFD<wasi.fds.length":
-            raise ExtractFail("wasi.c", f"wasiFileDescriptorGet: unexpected MUST condition `{cond}`")
-    def guard(fname):
-        """errno macro returned when descriptor.path == NULL is tested before the strcpy, else None"""
-        body = function_body(text, fname)
-        spos = body.find("strcpy(nativePath, descriptor.path)")
-        if spos < 0:
-            raise ExtractFail("wasi.c", f"{fname}: strcpy(nativePath, descriptor.path) not found")
-        m = re.search(r"if\s*\(\s*(?:descriptor\.path\s*==\s*NULL|!\s*descriptor\.path)\s*\)\s*\{(.*?)return\s+(\w+)\s*;", body[:spos], flags=re.S)
-        if m:
-            return m.group(2)
-        if re.search(r"descriptor\.path\s*==\s*NULL|!\s*descriptor\.path", body[:spos]):
-            raise ExtractFail("wasi.c", f"{fname}: NULL-path test of an unexpected shape")
-        return None
-    # where is an invalid whence (convert…Whence() == -1) rejected: in the fd_seek wrappers before
-    # wasiFDSeek is called (whence first), or inside wasiFDSeek after the descriptor checks
-    firsts = []
-    for macro in ("WASI_PREVIEW1_IMPORT", "WASI_UNSTABLE_IMPORT"):
-        seek = re.search(macro + r"\s*\(\s*U32\s*,\s*fd_seek", text)
-        if not seek:
-            raise ExtractFail("wasi.c", f"{macro} fd_seek not found")
-        end = match_close(text, text.index("(", seek.start()))
-        sb = text[seek.start():end]
-        call = sb.find("wasiFDSeek(")
-        test = re.search(r"if\s*\(\s*nativeWhence\s*==\s*-1\s*\)", sb)
-        if call < 0 or not re.search(r"nativeWhence\s*=\s*convert(Preview1|Unstable)Whence\s*\(\s*whence\s*\)", sb[:call]):
-            raise ExtractFail("wasi.c", "fd_seek wrapper of an unexpected shape")
-        firsts.append(test is not None and test.start() < call)
-    core = function_body(text, "wasiFDSeek")
-    ctest = re.search(r"if\s*\(\s*nativeWhence\s*==\s*-1\s*\)\s*\{[^}]*return\s+WASI_ERRNO_INVAL", core)
-    if firsts[0] != firsts[1]:
-        raise ExtractFail("wasi.c", "the two fd_seek wrappers treat an invalid whence differently")
-    whence_first = firsts[0]
-    if whence_first and ctest:
-        raise ExtractFail("wasi.c", "invalid whence tested twice")
-    if not whence_first:
-        fdneg = core.find("descriptor.fd < 0")
-        lseekpos = core.find("lseek(")
-        if not ctest or not (0 <= fdneg < ctest.start() < lseekpos):
-            raise ExtractFail("wasi.c", "wasiFDSeek: invalid-whence test missing or not between the descriptor checks and lseek")
-    sync_inval = {}
-    for fname in ("wasiFDDatasync", "wasiFDSync"):
-        body = function_body(text, fname)
-        m = re.search(r"if\s*\(\s*descriptor\.fd\s*<\s*0\s*\)\s*\{\s*return\s+(\w+)\s*;", body)
-        if not m:
-            raise ExtractFail("wasi.c", f"{fname}: fd < 0 test not found")
-        sync_inval[fname] = m.group(1)
-    # resolvePath refuses guest paths with an embedded NUL (before looking at path[0])
-    rp = function_body(text, "resolvePath")
-    nul_re = r"MUST\s*\(\s*memchr\s*\(\s*path\s*,\s*'\\0'\s*,\s*pathLength\s*\)\s*==\s*NULL\s*\)"
-    nuls = [m.start() for m in re.finditer(nul_re, rp)]
-    # shape A (085c0ff): one test right after `pathLength > 0`, before path[0] is looked at
-    shape_a = len(nuls) == 1 and 0 <= rp.find("pathLength > 0") < nuls[0] < rp.find("path[0]")
-    # shape B (f405bde): one test per branch, after that branch's length guard and before its first copy of `path`
-    abs_guard = rp.find("pathLength < PATH_MAX")
-    abs_copy = rp.find("memcpy(result, path")
-    rel_guard = rp.find("totalLength + pathLength + 1 < PATH_MAX")
-    rel_copy = rp.find("memcpy(result, directory")
-    shape_b = (len(nuls) == 2 and 0 <= abs_guard < nuls[0] < abs_copy < rel_guard < nuls[1] < rel_copy)
-    rejects_nul = shape_a or shape_b
-    if "memchr" in rp and not rejects_nul:
-        raise ExtractFail("wasi.c", "resolvePath: memchr test of an unexpected shape/position")
-    # does fd_readdir close the native descriptor of the entry (the table is only written through
-    # wasiDirectorySet / wasiFileDescriptorSet; an assignment to the local copy `descriptor` is not a table write)
-    rd = function_body(text, "wasiFDReaddir")
-    rd_closes = re.search(r"\bclose\s*\(\s*descriptor\.fd\s*\)", rd) is not None
-    rd_sets_fd = re.search(r"wasiFileDescriptorSet\s*\(", rd) is not None
-    if rd_sets_fd:
-        raise ExtractFail("wasi.c", "wasiFDReaddir: writes the native fd of the table entry (wasiFileDescriptorSet) — not modelled")
-    return clears, get_rejects, guard("wasiFDReaddir"), guard("wasiFdFdstatGet"), guard("wasiFDFilestatGet"), whence_first, sync_inval, rejects_nul, rd_closes
+def errno_table(unit):
+    is_errno = lambda e: e == ("un", "*", ("call", ("var", "__errno_location"), []))
+    # the functions executed on the error path of a failing host call
+    probe = world(unit)
+    probe.ret["fsync"] = -1
+    probe.errno.v = 5
+    seen_funcs = []
+    orig = probe.it.invoke
+
+    def tracing(name, args):
+        if name in unit.funcs and name not in seen_funcs:
+            seen_funcs.append(name)
+        return orig(name, args)
+    probe.it.invoke = tracing
+    tracing(ABI["p1"] + "fd_sync", [0, 4])
+    mentioned = []
+    for fn in seen_funcs:
+        for v in sorted(ci.consts_compared_with(unit.funcs[fn].body, is_errno)):
+            if v not in mentioned:
+                mentioned.append(v)
+    expect(mentioned, "wasi.c", "no errno comparisons found on the error path of fd_sync")
+
+    def translate(e):
+        w = world(unit)
+        w.ret["fsync"] = -1
+        w.errno.v = e
+        r = w.call(ABI["p1"] + "fd_sync", 0, 4)
+        expect(r[0] == "ret" and isinstance(r[1], int), "wasi.c", f"failing fd_sync with errno {e}: {r}")
+        return r[1]
+    rows = []
+    for v in mentioned:
+        name = pyerrno.errorcode.get(v)
+        if name == "EWOULDBLOCK":
+            name = "EAGAIN"
+        if name not in ERRNOS:
+            raise ExtractFail("wasi.c", f"errno value {v} ({name}) unknown to Spec.Posix.Errno")
+        rows.append((name, translate(v)))
+    dflt = translate(9999)
+    # every errno the model knows but the source does not mention must get the default
+    for name in ERRNOS:
+        v = getattr(pyerrno, name)
+        if v not in mentioned:
+            expect(translate(v) == dflt, "wasi.c", f"errno {name} is translated without being compared with")
+    return rows, dflt
 
 
-PATH_FUNCS = [("path_open", "wasiPathOpen", 1), ("path_filestat_get", "wasiPathFilestatGet", 1),
-              ("path_rename", "wasiPathRename", 2), ("path_unlink_file", "wasiPathUnlinkFile", 1),
-              ("path_remove_directory", "wasiPathRemoveDirectory", 1), ("path_create_directory", "wasiPathCreateDirectory", 1),
-              ("path_symlink", "wasiPathSymlink", 1), ("path_readlink", "wasiPathReadlink", 1)]
+def path_open_facts(unit):
+    def run(abi, oflags, rights, fdflags, mode=S_IFDIR):
+        w = world(unit)
+        w.stat["st_mode"] = mode
+        r = w.call(ABI[abi] + "path_open", 0, 3, 0, 100, 1, oflags, rights, 0, fdflags, 200)
+        return w, r
+
+    def flags_of(abi, oflags, rights, fdflags):
+        w, r = run(abi, oflags, rights, fdflags)
+        op = w.called("open")
+        expect(len(op) == 1 and r == ("ret", 0), "wasi.c", f"path_open(oflags {oflags}, rights {rights}, fdflags {fdflags}): {r}, open calls {op}")
+        path = ci.read_cstr(w.it, op[0][1][0])
+        expect(path == [ord(c) for c in "sb/f"], "wasi.c", f"path_open opens {bytes(path)!r} for \"f\" under \"sb\"")
+        return op[0][1][1], (op[0][1][2] if len(op[0][1]) > 2 else None)
+    base, mode = flags_of("p1", 0, 0, 0)
+    expect(base in ACC_BY_VALUE, "wasi.c", f"path_open with no rights and flags passes {base:#o}")
+    omap, fmap = [], []
+    for b in range(32):
+        for which, acc in ((0, omap), (1, fmap)):
+            fl, _ = flags_of("p1", (1 << b) if which == 0 else 0, 0, (1 << b) if which == 1 else 0)
+            d = fl ^ base
+            if d:
+                expect(d in OFLAG_BY_VALUE and fl == base | d, "wasi.c", f"{'oflags' if which == 0 else 'fdflags'} bit {b} changes the flag word by {d:#o}")
+                acc.append((1 << b, OFLAG_BY_VALUE[d]))
+    accm = lambda rights: flags_of("p1", 0, rights, 0)[0] & os.O_ACCMODE
+    wbits = [b for b in range(64) if accm(1 << b) in (os.O_WRONLY, os.O_RDWR)]
+    expect(wbits, "wasi.c", "no rights bit makes path_open open for writing")
+    rbits = [b for b in range(64) if accm((1 << wbits[0]) | (1 << b)) == os.O_RDWR and (b not in wbits or accm(1 << b) == os.O_RDWR)]
+    rd, wr = sum(1 << b for b in rbits), sum(1 << b for b in wbits)
+    pure_r = [b for b in rbits if b not in wbits]
+    pure_w = [b for b in wbits if b not in rbits]
+    expect(pure_r and pure_w, "wasi.c", "rights masks of an unexpected form")
+    acc = {"wr": accm((1 << pure_w[0]) | (1 << pure_r[0])), "w": accm(1 << pure_w[0]), "r": accm(1 << pure_r[0]), "none": accm(0)}
+    expect(acc["r"] == acc["none"], "wasi.c", "access mode without write rights depends on the read rights")
+    rng = random.Random(12345)
+    for _ in range(120):
+        x = rng.getrandbits(64) & rng.getrandbits(64)
+        want = (acc["wr"] if x & rd else acc["w"]) if x & wr else acc["r"]
+        expect(accm(x) == want, "wasi.c", f"access mode of rights {x:#x} is not determined by the read / write masks")
+    for abi in ("un",):
+        for (o, r_, f) in ((0, 0, 0), (0xF, wr | rd, 0x1F), (1, wr, 1), (2, rd, 4)):
+            expect(flags_of(abi, o, r_, f) == flags_of("p1", o, r_, f), "wasi.c", "path_open of the two ABIs differ")
+    # O_DIRECTORY emulation: the opened object is a regular file
+    emu = False
+    w, r = run("p1", 0, 0, 0, mode=S_IFREG)
+    expect(r == ("ret", 0), "wasi.c", "path_open of a regular file without flags fails")
+    for bit in range(32):              # some oflags bit makes path_open refuse what fstat says is no directory
+        w, r = run("p1", 1 << bit, 0, 0, mode=S_IFREG)
+        expect(r[0] == "ret", "wasi.c", "path_open on a file crashes")
+        if r[1] != 0 and w.called("fstat") and w.table_len() == len(STD_TABLE):
+            emu = True
+    # what is registered
+    w, r = run("p1", 0, 0, 0)
+    expect(r == ("ret", 0) and w.table_len() == len(STD_TABLE) + 1, "wasi.c", "successful path_open does not append one descriptor")
+    fd, d, p = w.entry(len(STD_TABLE))
+    expect(fd == w.ret["open"] and d == 0 and isinstance(p, Ptr), "wasi.c", f"path_open registers {(fd, d, p)}")
+    registers_resolved = ci.read_cstr(w.it, p) == [ord(c) for c in "sb/f"]
+    st = [s for s in w.stores if s[1] == 200]
+    expect(st == [("i32_store", 200, len(STD_TABLE))], "wasi.c", f"path_open stores {w.stores}")
+    return rd, wr, {k: ACC_BY_VALUE[v] for k, v in acc.items()}, omap, fmap, mode, emu, registers_resolved
 
 
-def path_call_facts(text):
-    """For every path_* function: is the directory descriptor validated UNCONDITIONALLY — each
-    `wasiFileDescriptorGet` is the whole condition of an `if (!…) { … return WASI_ERRNO_BADF; }`, each
-    `<x>Path == NULL` test likewise, the expected number of both is present, and the first lookup
-    precedes every use of the guest path (resolvePath / path[…]).  -> [(import, bool)]"""
+def filestat_layout(unit, abi):
+    def run(mode):
+        w = world(unit)
+        w.stat["st_mode"] = mode
+        r = w.call(ABI[abi] + "fd_filestat_get", 0, 4, 1000)
+        expect(r == ("ret", 0) and len(w.called("fstat")) == 1, "wasi.c", f"{abi} fd_filestat_get on an open file: {r}")
+        return w
+    w, w2 = run(S_IFREG), run(S_IFDIR)
+    ms = [m for m in w.memsets if isinstance(m[0], Ptr) and m[0].cell is w.guest]
+    expect(len(ms) == 1 and ms[0][0].idx == 1000 and ms[0][1] == 0 and isinstance(ms[0][2], int), "wasi.c",
+           f"{abi} fd_filestat_get: expected one zero-fill of the result area, saw {ms}")
+    size = ms[0][2]
+    s = w.stat
+    roles = {"dev": s["st_dev"], "ino": s["st_ino"], "nlink": s["st_nlink"], "size": s["st_size"],
+             "accessTime": s["st_atim"][0] * 10 ** 9 + s["st_atim"][1], "modificationTime": s["st_mtim"][0] * 10 ** 9 + s["st_mtim"][1],
+             "creationTime": s["st_ctim"][0] * 10 ** 9 + s["st_ctim"][1]}
+    rows = []
+    expect(len(w.stores) == len(w2.stores), "wasi.c", "filestat stores depend on the file type")
+    for (fn, addr, v), (fn2, addr2, v2) in zip(w.stores, w2.stores):
+        expect(fn == fn2 and addr == addr2 and isinstance(v, int), "wasi.c", "filestat stores depend on the file type")
+        nbytes = STORE_BYTES[fn]
+        if v != v2:
+            expect((v, v2) == (4, 3), "wasi.c", f"{abi} filestat: value depending on the file type is {(v, v2)}")
+            name, bits = "wasiFileType", 64
+        else:
+            cands = [(n, b) for n, rv in roles.items() for b in (64, 32, 16, 8) if v == rv % (1 << b)]
+            expect(cands, "wasi.c", f"{abi} filestat: stored value {v:#x} is no stat field")
+            name = cands[0][0]
+            bits = max(b for n, b in cands if n == name)
+        rows.append((name, addr - 1000, nbytes, min(bits, 8 * nbytes)))
+    expect(len(rows) == 8 and len({r[0] for r in rows}) == 8, "wasi.c", f"{abi} filestat: expected the 8 fields once each, got {[r[0] for r in rows]}")
+    return size, rows
+
+
+def iovec_facts(unit, call, host):
+    res = None
+    for abi in ABI:
+        w = world(unit)
+        r = w.call(ABI[abi] + call, 0, 4, 2000, 2, 3000)
+        expect(r == ("ret", 0) and w.iov_seen and w.iov_seen[0] == host and w.iov_seen[1] == 5 and w.iov_seen[3] == 2, "wasi.c",
+               f"{abi} {call} with two segments: {r}, host call {w.iov_seen}")
+        byval = {w.load_value(a): a for a in w.loads}
+        expect(len(byval) == len(set(w.loads)) == 4, "wasi.c", f"{call}: loads {w.loads}")
+        addrs = []
+        for base, ln in w.iov_seen[2]:
+            expect(isinstance(base, Ptr) and base.cell is w.guest and base.idx in byval and ln in byval, "wasi.c",
+                   f"{call}: segment {(base, ln)} is not (guest memory + loaded pointer, loaded length)")
+            addrs.append((byval[base.idx], byval[ln]))
+        stride = addrs[1][0] - addrs[0][0]
+        expect(stride > 0 and addrs[1][1] - addrs[0][1] == stride, "wasi.c", f"{call}: iovec addresses {addrs}")
+        expect(w.stores == [("i32_store", 3000, 5)], "wasi.c", f"{call}: stores {w.stores} for a transfer of 5 bytes")
+        # a failing transfer stores nothing and returns the translated errno
+        w2 = world(unit)
+        w2.ret[host] = -1
+        w2.errno.v = 5
+        r2 = w2.call(ABI[abi] + call, 0, 4, 2000, 2, 3000)
+        expect(r2[0] == "ret" and r2[1] != 0 and not w2.stores, "wasi.c", f"{call}: failing transfer gives {r2}, stores {w2.stores}")
+        f = (stride, addrs[0][0] - 2000, addrs[0][1] - 2000)
+        expect(res in (None, f), "wasi.c", f"{call}: the two ABIs marshal differently")
+        res = f
+    return res
+
+
+def structure_flags(unit, C):
+    """C: constants of wasi.h by value"""
+    badf = C["WASI_ERRNO_BADF"]
+    both = lambda f: {f(abi) for abi in ABI}
+
+    def one(s, what):
+        expect(len(s) == 1, "wasi.c", f"{what}: the two ABIs differ ({s})")
+        return next(iter(s))
+
+    def close_clears(abi):
+        w = world(unit)
+        r = w.call(ABI[abi] + "fd_close", 0, 4)
+        expect(r == ("ret", 0) and len(w.called("close")) == 1 and len(w.freed) == 1, "wasi.c", f"fd_close of an opened file: {r}, {w.it.calls}")
+        fd, d, p = w.entry(4)
+        expect(fd == -1 and d == 0, "wasi.c", f"fd_close leaves {(fd, d)} in the table")
+        return p == 0
+    clears = one(both(close_clears), "fd_close")
+
+    def rejects(abi):
+        w = world(unit)
+        a = w.call(ABI[abi] + "fd_close", 0, 5)
+        w = world(unit)
+        b = w.call(ABI[abi] + "fd_sync", 0, 5)
+        expect(a[0] == b[0] == "ret", "wasi.c", "fd_close / fd_sync on an empty slot crash")
+        if a[1] == badf and b[1] == badf:
+            return True
+        expect(a[1] == 0 and b[1] != badf, "wasi.c", f"empty slot: fd_close {a}, fd_sync {b}")
+        return False
+    get_rejects = one(both(rejects), "empty slot")
+
+    def null_path(call, args, table):
+        def f(abi):
+            w = world(unit, table)
+            r = w.call(ABI[abi] + call, *args)
+            if r == ("crash", "nullDeref"):
+                return None
+            expect(r[0] == "ret" and r[1] != 0 and not w.called(*HOST_PATH_CALLS), "wasi.c", f"{call} on a descriptor without path: {r}")
+            return r[1]
+        return one(both(f), call)
+    rd_null = null_path("fd_readdir", (0, 0, 500, 0, 0, 600), STD_TABLE)
+    nofd = STD_TABLE[:4] + [(-1, Ptr(Cell("DIR")), 0)]          # no native fd, no path, but a DIR: passes any lookup
+    fs_null = null_path("fd_fdstat_get", (0, 4, 500), nofd)
+    fl_null = null_path("fd_filestat_get", (0, 4, 500), nofd)
+
+    def negfd(call):
+        def f(abi):
+            w = world(unit)
+            r = w.call(ABI[abi] + call, 0, 3)
+            expect(r[0] == "ret" and r[1] != 0 and not w.called("fsync", "fdatasync"), "wasi.c", f"{call} on the pre-open: {r}")
+            return r[1]
+        return one(both(f), call)
+    sync_neg, datasync_neg = negfd("fd_sync"), negfd("fd_datasync")
+
+    def nul(abi):
+        w = world(unit)
+        w.put(120, [ord("a"), 0, ord("b")])
+        r = w.call(ABI[abi] + "path_open", 0, 3, 0, 120, 3, 0, 0, 0, 0, 200)
+        expect(r[0] == "ret", "wasi.c", "path_open with an embedded NUL crashes")
+        return r[1] != 0 and not w.called("open")
+    rejects_nul = one(both(nul), "embedded NUL")
+
+    def rd_closes(abi):
+        w = world(unit, STD_TABLE[:4] + [(5, 0, "sb/d")])
+        r = w.call(ABI[abi] + "fd_readdir", 0, 4, 500, 0, 0, 600)
+        expect(r == ("ret", 0) and len(w.called("opendir")) == 1, "wasi.c", f"fd_readdir on an opened directory: {r}")
+        fd, d, p = w.entry(4)
+        cl = [c for c in w.called("close") if c[1][0] == 5]
+        expect(isinstance(d, Ptr) and isinstance(p, Ptr), "wasi.c", "fd_readdir does not register the DIR stream")
+        if cl:
+            expect(fd == 5, "wasi.c", "fd_readdir closes the native descriptor and rewrites the table entry — not modelled")
+            return True
+        expect(fd == 5, "wasi.c", "fd_readdir changes the native descriptor of the entry")
+        return False
+    rd_closes_fd = one(both(rd_closes), "fd_readdir")
+    return clears, get_rejects, rd_null, fs_null, fl_null, sync_neg, datasync_neg, rejects_nul, rd_closes_fd
+
+
+PATH_IMPORTS = {  # import -> argument builder (dirfd, guest path pointer, length) -> args; rename: both positions
+    "path_open": lambda fd, p, l: [(0, fd, 0, p, l, 0, 0, 0, 0, 200)],
+    "path_filestat_get": lambda fd, p, l: [(0, fd, 0, p, l, 1000)],
+    "path_rename": lambda fd, p, l: [(0, fd, p, l, 3, 100, 1), (0, 3, 100, 1, fd, p, l)],
+    "path_unlink_file": lambda fd, p, l: [(0, fd, p, l)],
+    "path_remove_directory": lambda fd, p, l: [(0, fd, p, l)],
+    "path_create_directory": lambda fd, p, l: [(0, fd, p, l)],
+    "path_symlink": lambda fd, p, l: [(0, 100, 1, fd, p, l)],
+    "path_readlink": lambda fd, p, l: [(0, fd, p, l, 500, 16, 600)],
+}
+
+
+def path_call_facts(unit, badf):
     facts = []
-    for imp, fn, ngets in PATH_FUNCS:
-        body = function_body(text, fn)
-        body = re.sub(r"#\s*(?:ifdef|if|elif)\s+(?:_WIN32|defined\(__MWERKS__\)[^\n]*|defined\(__wii__\))[^\n]*\n.*?(?=#\s*(?:elif|else))", "", body, flags=re.S)
-        strict_get = re.findall(r"if\s*\(\s*!\s*wasiFileDescriptorGet\s*\(\s*\w+\s*,\s*&\s*\w+\s*\)\s*\)\s*\{[^{}]*?return\s+WASI_ERRNO_BADF\s*;[^{}]*\}", body)
-        all_get = re.findall(r"wasiFileDescriptorGet\s*\(", body)
-        strict_null = re.findall(r"if\s*\(\s*\w*[pP]ath\w*\s*==\s*NULL\s*\)\s*\{[^{}]*?return\s+WASI_ERRNO_BADF\s*;[^{}]*\}", body)
-        all_null = re.findall(r"\w*[pP]reopenPath\w*\s*==\s*NULL", body)
-        first_get = body.find("wasiFileDescriptorGet(")
-        uses = [m.start() for m in re.finditer(r"resolvePath\s*\(|\bpath\s*\[|\b(?:old|new)Path\s*\[", body)]
-        ok = (len(all_get) == ngets and len(strict_get) == ngets and len(all_null) == ngets and len(strict_null) == ngets
-              and first_get >= 0 and all(u > first_get for u in uses))
+    for imp, mk in PATH_IMPORTS.items():
+        ok = True
+        for abi in ABI:
+            for fd in (77, (1 << 32) - 1, 1):                     # never issued ×2, a standard stream (no path)
+                for p, l in ((100, 1), (110, 2)):                 # relative "f", absolute "/x"
+                    for args in mk(fd, p, l):
+                        w = world(unit)
+                        r = w.call(ABI[abi] + imp, *args)
+                        if r != ("ret", badf) or w.called(*HOST_PATH_CALLS):
+                            ok = False
         facts.append((imp, ok))
     return facts
 
@@ -360,15 +613,18 @@ def lean_list(items):
 
 
 def generate(repo):
-    cpath = os.path.join(repo, "wasi", "wasi.c")
     hpath = os.path.join(repo, "wasi", "wasi.h")
-    text = strip_comments(open(cpath).read())
-    htext = strip_comments(open(hpath).read())
-    macros = macros_of(htext)
-    macros.update({k: v for k, v in macros_of(text).items() if k.startswith("WASI_")})
-    imps = imports(text)
+    cpath = os.path.join(repo, "wasi", "wasi.c")
+    macros = macros_of(strip_comments(open(hpath).read()))
+    macros.update({k: v for k, v in macros_of(strip_comments(open(cpath).read())).items() if k.startswith("WASI_")})
+    CONST = lambda n: eval_const(n, macros, "wasi.h")
+    toks, typedefs = ci.preprocess(repo)
+    unit = ci.Unit(toks, typedefs)
+    imps = imports(unit)
+    C = {n: CONST(n) for n in ("WASI_ERRNO_BADF", "WASI_ERRNO_INVAL")}
     L = []
     w = L.append
+    b = lambda x: "true" if x else "false"
     w("-- GENERATED by tools/extract/gen_wasi.py from /repo/wasi/wasi.c and wasi.h — do not edit.")
     w("import W2c2Verif.Spec.Posix")
     w("namespace W2c2Verif.Gen.Wasi")
@@ -377,112 +633,88 @@ def generate(repo):
     w("/-- C parameter types of every import as declared in wasi.c: (abi, name, [(parameter, bits)]); `instance` omitted -/")
     rows = []
     for a, n, ps in imps:
-        pl = []
-        for ct, pn in ps:
-            if ct == "void*":
-                continue
-            if ct not in CT_BITS:
-                raise ExtractFail("wasi.c", f"unknown C type {ct} in import {n}")
-            pl.append(f'("{pn}", {CT_BITS[ct]})')
-        rows.append(f'("{a}", "{n}", {lean_list(pl)})')
+        rows.append('("%s", "%s", %s)' % (a, n, lean_list('("%s", %d)' % (pn, bits) for pn, bits in ps)))
     w("def importParams : List (String × String × List (String × Nat)) := [\n  " + ",\n  ".join(rows) + "]")
     w("")
     for abi in ("p1", "un"):
-        for call in ("fd_pwrite", "fd_pread", "fd_seek"):
+        for call, idx in (("fd_pwrite", 3), ("fd_pread", 3), ("fd_seek", 1)):
             w(f"/-- declared width of the `offset` parameter of {abi}:{call} -/")
-            w(f"def {call}_offset_bits_{abi} : Nat := {param_bits(imps, abi, call, 'offset')}")
-        w(f"def path_open_rights_bits_{abi} : Nat := {param_bits(imps, abi, 'path_open', 'fsRightsBase')}")
-        w(f"def fd_readdir_cookie_bits_{abi} : Nat := {param_bits(imps, abi, 'fd_readdir', 'cookie')}")
+            w(f"def {call}_offset_bits_{abi} : Nat := {param_bits(imps, abi, call, idx)}")
+        w(f"def path_open_rights_bits_{abi} : Nat := {param_bits(imps, abi, 'path_open', 5)}")
+        w(f"def fd_readdir_cookie_bits_{abi} : Nat := {param_bits(imps, abi, 'fd_readdir', 3)}")
     w("")
-    for nm, fn in (("whencePreview1", "convertPreview1Whence"), ("whenceUnstable", "convertUnstableWhence")):
-        tab = whence_table(text, fn)
-        w(f"/-- `{fn}` -/")
+    for nm, abi in (("whencePreview1", "p1"), ("whenceUnstable", "un")):
+        w(f"/-- whence encoding of {ABI[abi]}fd_seek: the third argument `lseek` receives -/")
         w(f"def {nm} : Nat → Option Whence")
-        for v, wn in tab:
+        for v, wn in whence_table(unit, abi):
             w(f"  | {v} => some .{wn}")
         w("  | _ => none")
     w("")
-    rd, wr, acc, omap, fmap, mode, emu, regpath = path_open_tables(text, macros)
+    rd, wr, acc, omap, fmap, mode, emu, regres = path_open_facts(unit)
     w(f"def readRightsMask : Nat := {rd}")
     w(f"def writeRightsMask : Nat := {wr}")
-    w("/-- `nativeFlags = isWrite ? isRead ? … : … : …` -/")
+    w("/-- access mode `open` receives, by (some write right set, some read right set) -/")
     w("def accessMode (isWrite isRead : Bool) : Acc :=")
     w(f"  if isWrite then (if isRead then .{acc['wr']} else .{acc['w']}) else .{acc['r']}")
-    w("/-- `if (oflags & MASK) nativeFlags |= O_X` rows -/")
+    w("/-- (oflags / fdflags bit, O_* flag it adds to `open`'s flag word) -/")
     w("def oflagsMap : List (Nat × OFlag) := " + lean_list(f"({m}, .{f})" for m, f in omap))
     w("def fdflagsMap : List (Nat × OFlag) := " + lean_list(f"({m}, .{f})" for m, f in fmap))
-    w(f"def openMode : Nat := {mode}")
-    w(f"def directoryEmulation : Bool := {'true' if emu else 'false'}")
-    w(f"/-- the string path_open registers in the table: `{regpath}` -/")
-    w(f"def pathOpenRegistersResolved : Bool := {'true' if regpath == 'resolvedPath' else 'false'}")
+    w(f"def openMode : Nat := {mode if mode is not None else 0}")
+    w(f"def directoryEmulation : Bool := {b(emu)}")
+    w("/-- path_open registers (a copy of) the resolved path in the table -/")
+    w(f"def pathOpenRegistersResolved : Bool := {b(regres)}")
     w("")
-    tab, dflt = errno_table(text, macros)
-    w("/-- `wasiErrno`: host errno ↦ WASI errno -/")
+    tab, dflt = errno_table(unit)
+    w("/-- errno translation: host errno ↦ WASI errno (every errno the code compares `errno` with) -/")
     w("def errnoTable : List (Errno × Nat) := " + lean_list(f"(.{e}, {n})" for e, n in tab))
     w(f"def errnoDefault : Nat := {dflt}")
     for nm in ("BADF", "INVAL", "NOMEM", "NOTDIR", "NOSYS", "SUCCESS"):
-        w(f"def WASI_ERRNO_{nm} : Nat := {eval_const('WASI_ERRNO_' + nm, macros, 'wasi.h')}")
+        w(f"def WASI_ERRNO_{nm} : Nat := {CONST('WASI_ERRNO_' + nm)}")
     w("")
-    for nm, fn, sz in (("filestatPreview1", "storePreview1Filestat", "wasiPreview1FilestatSize"),
-                       ("filestatUnstable", "storeUnstableFilestat", "wasiUnstableFilestatSize")):
-        size, rows = filestat_layout(text, fn, sz)
-        w(f"/-- `{fn}`: bytes zeroed by the memset -/")
+    for nm, abi in (("filestatPreview1", "p1"), ("filestatUnstable", "un")):
+        size, rows = filestat_layout(unit, abi)
+        w(f"/-- {ABI[abi]}fd_filestat_get: bytes zeroed at the result pointer -/")
         w(f"def {nm}Size : Nat := {size}")
-        w("/-- (C variable, offset, bytes stored, bits of the C variable's type) in program order -/")
-        w(f"def {nm} : List (String × Nat × Nat × Nat) := " + lean_list(f'("{v}", {o}, {b}, {t})' for v, o, b, t in rows))
+        w("/-- (field, offset, bytes stored, bits of the value that survive the C conversions) in program order -/")
+        w(f"def {nm} : List (String × Nat × Nat × Nat) := " + lean_list(f'("{v}", {o}, {by}, {t})' for v, o, by, t in rows))
     w("")
-    iv = iovec_facts(text)
-    for fn, nm in (("wasiFDWrite", "ciovec"), ("wasiFDRead", "iovec")):
-        w(f"def {nm}Size : Nat := {iv[fn][0]}")
-        w(f"def {nm}BufOffset : Nat := {iv[fn][1]}")
-        w(f"def {nm}LenOffset : Nat := {iv[fn][2]}")
+    for call, host, nm in (("fd_write", "writev", "ciovec"), ("fd_read", "readv", "iovec")):
+        stride, bo, lo = iovec_facts(unit, call, host)
+        w(f"def {nm}Size : Nat := {stride}")
+        w(f"def {nm}BufOffset : Nat := {bo}")
+        w(f"def {nm}LenOffset : Nat := {lo}")
     w("")
-    # prestat / fdstat stores
-    pb = function_body(text, "wasi_unstable__fd_prestat_get") if False else None
-    m = re.search(r"WASI_IMPORT\s*\(\s*U32\s*,\s*fd_prestat_get", text)
-    if not m:
-        raise ExtractFail("wasi.c", "fd_prestat_get not found")
-    seg = text[m.start():m.start() + 1500]
-    ps = stores(seg, "prestatPointer")
-    if len(ps) != 2:
-        raise ExtractFail("wasi.c", "fd_prestat_get: expected two stores")
-    w("/-- fd_prestat_get stores: (offset, bytes, what) -/")
-    w("def prestatStores : List (Nat × Nat × String) := " + lean_list(f'({o}, {STORE_BYTES[f]}, "{e}")' for f, o, e in ps))
-    w(f"def WASI_PREOPEN_TYPE_DIRECTORY : Nat := {eval_const('WASI_PREOPEN_TYPE_DIRECTORY', macros, 'wasi.h')}")
-    fb = function_body(text, "wasiFdFdstatGet")
-    fs = stores(fb, "resultPointer")
-    w("def fdstatStores : List (Nat × Nat × String) := " + lean_list(f'({o}, {STORE_BYTES[f]}, "{e}")' for f, o, e in fs))
-    w(f"def fdstatSize : Nat := {eval_const('WASI_FDSTAT_SIZE', macros, 'wasi.c')}")
+    w(f"def WASI_PREOPEN_TYPE_DIRECTORY : Nat := {CONST('WASI_PREOPEN_TYPE_DIRECTORY')}")
+    w(f"def fdstatSize : Nat := {CONST('WASI_FDSTAT_SIZE')}")
     for nm in ("WASI_RIGHTS_ALL", "WASI_RIGHTS_REGULAR_FILE_BASE", "WASI_RIGHTS_REGULAR_FILE_INHERITING",
                "WASI_RIGHTS_DIRECTORY_BASE", "WASI_RIGHTS_DIRECTORY_INHERITING", "WASI_RIGHTS_TTY_BASE",
                "WASI_RIGHTS_TTY_INHERITING", "WASI_FILE_TYPE_UNKNOWN", "WASI_FILE_TYPE_DIRECTORY",
                "WASI_FILE_TYPE_REGULAR_FILE", "WASI_FILE_TYPE_CHARACTER_DEVICE", "WASI_FDFLAGS_APPEND",
                "WASI_FDFLAGS_DSYNC", "WASI_FDFLAGS_NONBLOCK", "WASI_FDFLAGS_RSYNC", "WASI_FDFLAGS_SYNC"):
-        w(f"def {nm} : Nat := {eval_const(nm, macros, 'wasi.h')}")
+        w(f"def {nm} : Nat := {CONST(nm)}")
     w("")
-    clears, get_rejects, g_rd, g_fs, g_fl, whence_first, sync_inval, rejects_nul, rd_closes = structure_flags(text)
-    b = lambda x: "true" if x else "false"
-    og = lambda x: "none" if x is None else f"some {eval_const(x, macros, 'wasi.h')}"
-    w("/-- `wasiFileDescriptorClose` assigns `path = NULL` in the table after `free` -/")
+    clears, get_rejects, g_rd, g_fs, g_fl, sync_neg, datasync_neg, rejects_nul, rd_closes = structure_flags(unit, C)
+    og = lambda x: "none" if x is None else f"some {x}"
+    w("/-- after fd_close the table entry has a NULL path -/")
     w(f"def closeClearsPath : Bool := {b(clears)}")
-    w("/-- `wasiFileDescriptorGet` fails (before copying) for a slot with no native fd, no DIR and no path -/")
+    w("/-- a slot with no native fd, no DIR and no path is rejected (EBADF) by fd_close and fd_sync -/")
     w(f"def getRejectsClosed : Bool := {b(get_rejects)}")
-    w("/-- the errno returned when `descriptor.path == NULL` is tested before `strcpy(nativePath, descriptor.path)`; `none` = no test -/")
+    w("/-- the errno returned for a descriptor whose path is NULL where the path is needed; `none` = the NULL path is dereferenced -/")
     w(f"def readdirNullPath : Option Nat := {og(g_rd)}")
     w(f"def fdstatNullPath : Option Nat := {og(g_fs)}")
     w(f"def filestatNullPath : Option Nat := {og(g_fl)}")
-    w("/-- `wasiFDReaddir` calls `close(descriptor.fd)` after registering the DIR stream, while the table entry keeps the number -/")
+    w("/-- fd_readdir calls `close` on the entry's native descriptor after `opendir`, while the table entry keeps the number -/")
     w(f"def readdirClosesNativeFd : Bool := {b(rd_closes)}")
-    w("/-- per path_* import: the directory descriptor is validated unconditionally (lookup + NULL-path test, each the")
-    w("    whole condition of an `if … return WASI_ERRNO_BADF`) before the guest path is looked at -/")
-    w("def pathCallsValidateDirfd : List (String × Bool) := " + lean_list(f'("{n}", {b(ok)})' for n, ok in path_call_facts(text)))
-    w("/-- `resolvePath` fails for a guest path that contains a NUL byte -/")
+    w("/-- per path_* import: a never issued / path-less directory descriptor gives EBADF without any host call, for")
+    w("    relative and absolute guest paths alike -/")
+    w("def pathCallsValidateDirfd : List (String × Bool) := " + lean_list(f'("{n}", {b(ok)})' for n, ok in path_call_facts(unit, C["WASI_ERRNO_BADF"])))
+    w("/-- a guest path that contains a NUL byte is refused before `open` -/")
     w(f"def resolveRejectsNul : Bool := {b(rejects_nul)}")
-    w("/-- fd_seek converts (and rejects) whence before looking the descriptor up -/")
-    w(f"def seekChecksWhenceFirst : Bool := {b(whence_first)}")
-    w(f"/-- fd_datasync / fd_sync on a descriptor with fd < 0 return this -/")
-    w(f"def datasyncNegFd : Nat := {eval_const(sync_inval['wasiFDDatasync'], macros, 'wasi.h')}")
-    w(f"def syncNegFd : Nat := {eval_const(sync_inval['wasiFDSync'], macros, 'wasi.h')}")
+    w("/-- fd_seek(dead descriptor, invalid whence) reports EINVAL (whence first) rather than EBADF -/")
+    w(f"def seekChecksWhenceFirst : Bool := {b(seek_whence_first(unit, C['WASI_ERRNO_INVAL'], C['WASI_ERRNO_BADF']))}")
+    w("/-- fd_datasync / fd_sync on a descriptor without native fd return this -/")
+    w(f"def datasyncNegFd : Nat := {datasync_neg}")
+    w(f"def syncNegFd : Nat := {sync_neg}")
     w("")
     w("end W2c2Verif.Gen.Wasi")
     return "\n".join(L) + "\n"
